@@ -1,5 +1,5 @@
 SPECIFICATION Spec
-CONSTANT Univ <- UnivThorough
+CONSTANTS Univ <- UnivThorough  EmitHist = FALSE  HistLen = 0
 INVARIANTS SetDetermined CompleteWhenAllSource NeedK SameSetsSameAnswer
 PROPERTY Stable
 CHECK_DEADLOCK FALSE
